@@ -53,9 +53,7 @@ def signature(pid, clauses, scn):
     return "%s:%s:%s" % (pid, "+".join(sorted(clauses)), ",".join(sorted(feats)))
 
 
-def run(pid, tier, seed):
-    t0 = time.time()
-    d = outdir(pid)
+def collect(pid, tier, seed, d, binp):
     plan = PLAN[pid]
     mcs = plan["mc_q"] if tier == "quick" else plan["mc_t"]
     modes, count = plan["gen_q"] if tier == "quick" else plan["gen_t"]
@@ -79,8 +77,7 @@ def run(pid, tier, seed):
         for s in scn_lines:
             f.write(s + "\n")
 
-    # 2. build the harness from /repo's working tree, replay the behaviours, run random scenarios
-    binp = build_harness(d)
+    # 2. replay the behaviours on the real library (built from /repo's working tree), run random scenarios
     hist = os.path.join(d, "hist.ndjson")
     run_harness(binp, ["engine", "--scn", scnp, "--out", hist, "--seed", str(seed), "--count", str(count), "--modes", modes])
 
@@ -113,11 +110,10 @@ def run(pid, tier, seed):
             if sig in known:
                 known_hits[sig] = known[sig]
             else:
-                violations.append({"property": pid, "clauses": clauses, "signature": sig, "scenario": scns[scn_id]})
+                violations.append({"property": pid, "family": "engine", "clauses": clauses, "signature": sig, "scenario": scns[scn_id]})
     if unconfirmed:
         raise ToolFailure("%d failing histories did not fail again on re-execution (non-deterministic harness?)" % unconfirmed)
 
-    # 5. evidence
     samples = []
     try:
         with open(hist) as f:
@@ -127,34 +123,25 @@ def run(pid, tier, seed):
                     samples.append({"scn": r["scn"], "src": r["src"], "nodes": r["cfg"]["nodes"], "history": r["h"][:40]})
     except Exception:
         pass
-    hits = {k: v for k, v in summ.items() if k not in ("scenarios", "events")}
-    coverage = {
-        "states": states, "transitions": transitions,
-        "traces_validated_against_impl": summ.get("scenarios", 0),
-        "events_validated": summ.get("events", 0),
-        "behaviours_exported_by_tlc_and_replayed": len(scn_lines),
-        "replayed_histories_differing_from_spec_behaviour": len(drifts),
-        "model_checking": mc_info,
-        "generator_modes": modes, "generated_base_scenarios_per_mode": count,
-        "histories_exercising": hits,
-        "samples": samples,
-        "exhaustive": False,
-        "explanation": "TLC checked %s_OK (and the design invariants) on every complete behaviour of FlytEngine in the listed bounded "
-                       "families; every such behaviour was replayed on the real library in 2 Go-kind variants and the recorded history "
-                       "compared with the behaviour; seeded random scenarios beyond the bounds were executed; TLC evaluated %s_Clauses "
-                       "on every recorded history." % (pid, pid),
-    }
-    write_evidence(pid, tier, seed, "model_checking", coverage, time.time() - t0, len(violations),
-                   ["callbacks and public call/return are the only observation points (no source hooks)",
-                    "TLC explores the operational spec only within the stated bounds; beyond them the evidence is the validated histories",
-                    "scenario scripts are deterministic functions of (seed, position)"])
-    if drifts:
-        log("DRIFT: %d replayed behaviours differ from the specification's (not a verdict; see out/%s)" % (len(drifts), pid))
+    for m in mc_info:
+        m["spec"] = "FlytEngine"
+    return dict(states=states, transitions=transitions, scenarios=summ.get("scenarios", 0), events=summ.get("events", 0),
+                hits={k: v for k, v in summ.items() if k not in ("scenarios", "events")}, violations=violations, known_hits=known_hits,
+                drifts=len(drifts), mc_info=mc_info, samples=samples, exported=len(scn_lines), modes=modes, count=count)
 
-    def writer(path, v):
-        with open(path, "w") as f:
-            json.dump({"family": "engine", **v}, f, indent=1)
-    return report(pid, d, violations, known_hits, writer)
+
+WITH_BATCH = {"C02", "C04", "C18"}
+
+
+def run(pid, tier, seed):
+    import fam_batch
+    t0 = time.time()
+    d = outdir(pid)
+    binp = build_harness(d)
+    parts = [("engine", collect(pid, tier, seed, d, binp))]
+    if pid in WITH_BATCH:
+        parts.append(("batch", fam_batch.collect(pid, tier, seed, d, binp)))
+    return fam_batch.finish(pid, tier, seed, d, t0, parts)
 
 
 def replay(bundle):
